@@ -21,7 +21,7 @@ RULE = ("seeded random DCOPs: 1-5 variables (plain, cost dict, cost function, co
         "'infinity' 10000, inf, and rarely -inf / nan; infinity in {inf, 10000, 0, -inf}; "
         "assignments complete / one variable missing / one extra key / one missing AND one extra / "
         "external variable given with another value / None for a variable outside every scope; "
-        "called through DCOP.solution_cost, the module function solution_cost, and "
+        "called through DCOP.solution_cost (objective min or max), the module function solution_cost, and "
         "assignment_cost (with and without consider_variable_cost, values partly in kwargs, "
         "missing values); non-trivial = at least one constraint and two cost terms; distinct = "
         "distinct case JSON")
@@ -106,6 +106,9 @@ def gen(rng, n, tier):
         asg = [[v, rng.choice(dom)] for v in vs]
         rng.shuffle(asg)
         c = dict(mode=mode, dom=dom, vars=variables, exts=exts, rels=rels, infinity=rng.choice(INFS))
+        if mode == "dcop":
+            # the accounting must not depend on the DCOP's objective
+            c["objective"] = rng.choice(["min", "max"])
         if mode in ("dcop", "func"):
             r = rng.random()
             shape = "complete"
@@ -249,7 +252,7 @@ def run_impl(case):
         return dict(cost=_canon(c), dims=dims)
     try:
         if case["mode"] == "dcop":
-            dcop = DCOP("t", "min")
+            dcop = DCOP("t", case.get("objective", "min"))
             dcop.variables = dict(objs)
             dcop.external_variables = dict(exts)
             dcop._constraints = {r.name: r for r in rels}
@@ -412,6 +415,7 @@ def histogram(cases, obs):
     h = {}
     for c, o in zip(cases, obs):
         for k in ("mode=" + c["mode"], "shape=" + c["shape"], "infinity=%s" % c["infinity"],
+                  "objective=" + c.get("objective", "-"),
                   "outcome=" + (o.get("error", "ok") if isinstance(o, dict) else "?")):
             h[k] = h.get(k, 0) + 1
     return h
